@@ -79,6 +79,20 @@ Fixpoint failing_from {T} (f : T -> bool) (i : N) (l : list T) : list N :=
   end.
 Definition failing {T} (f : T -> bool) (l : list T) : list N := failing_from f 0%N l.
 
+(** one report line per case on which the correspondence or the property predicate fails:
+    (index, corr_ok, prop_ok, known-finding class of the input, 0 = none) *)
+Fixpoint classify_from {T} (corr prop : T -> bool) (cls : T -> N) (i : N) (l : list T)
+  : list (N * bool * bool * N) :=
+  match l with
+  | [] => []
+  | c :: l' =>
+      let a := corr c in let b := prop c in
+      if a && b then classify_from corr prop cls (N.succ i) l'
+      else (i, a, b, cls c) :: classify_from corr prop cls (N.succ i) l'
+  end.
+Definition classify {T} (corr prop : T -> bool) (cls : T -> N) (l : list T) :=
+  classify_from corr prop cls 0%N l.
+
 (** split a stream into rounds at FAR (the FAR itself is dropped; a trailing piece after
     the last FAR is kept) *)
 Fixpoint rounds_aux {A} (cur : list (elem A)) (l : list (elem A)) : list (list (elem A)) :=
